@@ -19,7 +19,7 @@ BOUNDS = {
 }
 ASSUMPTIONS = ["exact real arithmetic", "numpy<->torch and dtype switching are outside (torch tensors cannot carry symbolic scalars)"]
 
-QUESTIONS = ["query", "query_joint_false", "map", "virtual", "query_evidence", "map_evidence"]
+QUESTIONS = ["query", "query_joint_false", "map", "virtual", "query_evidence", "map_evidence", "virtual_evidence"]
 
 
 def scenarios(tier, seed):
@@ -63,7 +63,7 @@ def scenarios(tier, seed):
                     out.append(dict(budget_s=40, **extra, family="relabel", mode="relabel", shape=sname, nodes=nodes, parents=parents, card=card, names=names, states=states,
                                     node_order=list(np.roll(nodes, perm)), edge_rev=bool(perm % 2), cpd_rev=bool(k % 2), hashseed=k % nh,
                                     engine=["ve", "bp"][k % 2] if sname != "collchild" or tier != "quick" else "ve"))
-    for kind in ["hc_start_dag", "hc_data", "mle_data", "bayes_data", "score_data", "convert", "writer", "sampling", "factor_ops_engine", "pc_data", "exhaustive"]:
+    for kind in ["hc_sequence", "hc_start_dag", "hc_data", "mle_data", "bayes_data", "score_data", "convert", "writer", "sampling", "factor_ops_engine", "pc_data", "exhaustive"]:
         for v in range(2):
             out.append(dict(family=f"pure/{kind}", mode="pure", kind=kind, variant=v, hashseed=v, concrete_only=True))
     return out
@@ -139,7 +139,10 @@ def run_seq(desc, M):
         ev = {}
         if qn in ("query_evidence", "map_evidence") and evnode:
             ev = {evnode: card[evnode] - 1}
+        if qn == "virtual_evidence" and len(nodes) > 2:
+            ev = {nodes[1]: 0}
         evidence = {nm[e]: C.sname(desc, e, s) for e, s in ev.items()} or None
+        evidence_before = dict(evidence) if evidence else None
         if ev:
             pe0 = C.marginal(desc, jt, ev)
             M.assume(pe0 > 0, "P(evidence) > 0")
@@ -162,6 +165,16 @@ def run_seq(desc, M):
         elif qn == "query_joint_false":
             res = eng.query([nm[q0], nm[q1]], joint=False, show_progress=False)
             answer_check(desc, M, nm, jt, res, [q0, q1], {}, None, None, tag, joint=False)
+        elif qn == "virtual_evidence":
+            if len(nodes) <= 2 or virt in (q0, nodes[1]):
+                continue
+            sn = C.state_names(desc.get("states", "default"), virt, card[virt])
+            ve_ = [TabularCPD(nm[virt], card[virt], [[M.impl(x)] for x in lam], **({"state_names": {nm[virt]: sn}} if sn else {}))]
+            res = eng.query([nm[q0]], evidence=evidence, virtual_evidence=ve_, show_progress=False)
+            answer_check(desc, M, nm, jt, res, [q0], ev, lam, virt, tag)
+            # the same evidence dict is reused for a plain query afterwards
+            res = eng.query([nm[q0]], evidence=evidence, show_progress=False)
+            answer_check(desc, M, nm, jt, res, [q0], ev, None, None, tag + " then plain query with the same evidence dict")
         elif qn == "virtual":
             if virt in (q0,):
                 continue
@@ -177,6 +190,8 @@ def run_seq(desc, M):
                 best = C.marginal(desc, jt, {**star, **ev})
                 for a in C.assignments(desc, qv):
                     M.le(C.marginal(desc, jt, {**a, **ev}), best, f"{tag}: MAP answer still a maximiser after earlier questions")
+        if evidence_before is not None:
+            M.check(evidence == evidence_before, f"the evidence dict passed to the engine is unchanged after {qn}", detail=f"{evidence}")
         # purity after every question
         M.check(same_model(M, snap_model(model), before), f"the model passed to the engine is unchanged after {qn}", detail=tag)
     if M.symbolic:
@@ -230,6 +245,23 @@ def run_pure(desc, M):
         M.check(set(g.edges()) == e0 and set(g.nodes()) == n0, "HillClimbSearch.estimate leaves the caller's start_dag unchanged",
                 detail=f"start {sorted(e0)} now {sorted(g.edges())} result {sorted(res.edges())}")
         data_same("HillClimbSearch")
+    elif kind == "hc_sequence":
+        # one estimator object, two searches with different scoring objects of the same class: the second must equal a fresh estimator's
+        from pgmpy.estimators import BDeuScore, HillClimbSearch, K2Score
+        cnt = [[30, 20], [20, 30]] if v == 0 else [[25, 5], [10, 40]]
+        rows = [(a, b) for a in range(2) for b in range(2) for _ in range(cnt[a][b])]
+        d2 = pd.DataFrame(rows, columns=["x", "y"])
+        for first, second in ((1, 50), (50, 1)):
+            est = HillClimbSearch(d2, use_cache=True)
+            est.estimate(scoring_method=BDeuScore(d2, equivalent_sample_size=first), show_progress=False)
+            r2 = est.estimate(scoring_method=BDeuScore(d2, equivalent_sample_size=second), show_progress=False)
+            fresh = HillClimbSearch(d2, use_cache=True).estimate(scoring_method=BDeuScore(d2, equivalent_sample_size=second), show_progress=False)
+            M.check({frozenset(e) for e in r2.edges()} == {frozenset(e) for e in fresh.edges()},
+                    "a second structure search on the same estimator equals a fresh estimator's result", detail=f"ess {first} then {second}: {sorted(r2.edges())} vs {sorted(fresh.edges())}")
+        est = HillClimbSearch(d2)
+        a1 = est.estimate(scoring_method=K2Score(d2), show_progress=False)
+        a2 = est.estimate(scoring_method=K2Score(d2), show_progress=False)
+        M.check(set(a1.edges()) == set(a2.edges()), "asking the same structure-search question twice gives the same answer")
     elif kind == "hc_data":
         from pgmpy.estimators import HillClimbSearch
         est = HillClimbSearch(data, use_cache=bool(v))
